@@ -2,6 +2,7 @@ package rules
 
 import (
 	"fmt"
+	"regexp"
 	"strings"
 
 	"golang.org/x/tools/go/ssa"
@@ -10,6 +11,8 @@ import (
 )
 
 func init() { registry["C20"] = c20 }
+
+var plainUserArg = regexp.MustCompile(`^(P\d+|elem\(P\d+(,[^()]*)?\)|[^()]*Flags\(\)[^()]*\.GetString\([^()]*\)(#0)?|[^(]*GetString\(.*\)(#0)?)$`)
 
 const foldStepTerm = "hex(sha256.New(concat(P0,P1)))"
 
@@ -138,6 +141,14 @@ func c20(r *core.Run) {
 					if cal == hasher {
 						isHasher = true
 					}
+					// ... or a splitter: a filetree function of one readable path that hashes it (merkleHelper)
+					if cal != fn && len(cal.Params) == 1 && cal.Params[0].Type().String() == "string" && strings.HasPrefix(core.RelPkg(core.FnPkgPath(cal)), "x/filetree") {
+						for _, g := range p.Summary(cal).Funcs {
+							if g == hasher || (combiner != nil && g == combiner) {
+								isHasher = true
+							}
+						}
+					}
 				}
 				if !isHasher {
 					return
@@ -151,6 +162,10 @@ func c20(r *core.Run) {
 				}
 				// what remains is the user's argument: a parameter, an element of the argument list, a flag value
 				plain := !strings.Contains(rest, "runes(") && !strings.Contains(rest, "strings.") && !strings.Contains(rest, "concat(") && !strings.Contains(rest, "alt(") && !strings.Contains(rest, "⊤")
+				// positively: a parameter, an element of the argument list, or a flag value — not the result of any other call
+				if plain && !plainUserArg.MatchString(rest) {
+					plain = false
+				}
 				r.Check(plain, "C20/R4", core.FnName(fn)+":hashes-the-given-path", p.InstrPos(c), "MerklePath("+term+")",
 					"a client command hashes "+term+" instead of the path it was given (cut at most by one trailing \"/\"): for paths where the two differ the address it puts into the message is not the one the chain stores the entry under")
 			})
@@ -341,6 +356,15 @@ func c20(r *core.Run) {
 					return true
 				}
 				if hop != nil {
+					// the unit's single result, when every return of the unit hands back the combiner's result
+					if core.SameValue(v, hop) && unit.Signature.Results().Len() == 1 {
+						for _, b := range unit.Blocks {
+							if ret, ok := b.Instrs[len(b.Instrs)-1].(*ssa.Return); ok && !core.SameValue(ret.Results[0], step) {
+								return false
+							}
+						}
+						return true
+					}
 					if ex, ok := v.(*ssa.Extract); ok && ex.Tuple == ssa.Value(hop) {
 						for _, b := range unit.Blocks {
 							if ret, ok := b.Instrs[len(b.Instrs)-1].(*ssa.Return); ok && ex.Index < len(ret.Results) && !core.SameValue(ret.Results[ex.Index], step) {
@@ -410,15 +434,17 @@ func c20(r *core.Run) {
 			r.Check(okPath, "C20/R2", h.Key()+":returned-path", p.Pos(h.Fn.Pos()), "returned Path is the combiner's result", "the address returned to the client differs from the stored one")
 			// owner computed from that address
 			okOwner := false
-			allInstrs(unit, func(in ssa.Instruction) {
-				if c, ok := in.(*ssa.Call); ok && c != step {
-					for _, a := range c.Call.Args {
-						if isStep(a) && len(p.Callees(c)) == 1 && p.Callees(c)[0] != combiner && c.Type().String() == "string" {
-							okOwner = true
+			for _, fn := range []*ssa.Function{unit, h.Fn} {
+				allInstrs(fn, func(in ssa.Instruction) {
+					if c, ok := in.(*ssa.Call); ok && c != step && c != hop {
+						for _, a := range c.Call.Args {
+							if isStep(a) && len(p.Callees(c)) == 1 && p.Callees(c)[0] != combiner && p.Callees(c)[0] != unit && c.Type().String() == "string" {
+								okOwner = true
+							}
 						}
 					}
-				}
-			})
+				})
+			}
 			r.Check(okOwner, "C20/R2", h.Key()+":owner-from-address", p.Pos(h.Fn.Pos()), "the owner hash is computed from the combiner's result", "the new entry's owner hash is not derived from its address")
 		}
 	}
